@@ -47,6 +47,8 @@ class Remark(AceBase):
             self._text = h.init_remark_text(kwargs.get("text") or "")
         if line:
             self.line = line
+        elif not self._text:
+            raise ValueError(f"absent remark text, {line=}")
 
     def __lt__(self, other) -> bool:
         """< less than."""
